@@ -1,6 +1,19 @@
 package harness
 
-import "testing"
+import (
+	"fmt"
+	"io"
+	"log"
+	"net"
+	"runtime"
+	"strings"
+	"sync"
+	"sync/atomic"
+	"testing"
+	"time"
+
+	ml "github.com/hashicorp/memberlist"
+)
 
 // C02: accusations against the local node (table with target = self, then random histories
 // in which most claims are about the local node, including far-ahead incarnations).
@@ -20,6 +33,7 @@ func TestC07(t *testing.T) {
 		n = envInt("VERIF_N", 150000)
 	}
 	forCases(n, 107, "h", func(i int, r *rng, id string) { randomHistory("C07", r, id, 2, 40) })
+	forCases(n/200+4, 1071, "c", func(i int, r *rng, id string) { c07Conc(r, id) })
 }
 
 // C08: address conflicts / reclaim / departures: the non-local table plus random histories.
@@ -31,6 +45,113 @@ func TestC08(t *testing.T) {
 	}
 	forCases(n, 108, "h", func(i int, r *rng, id string) { randomHistory("C08", r, id, 2, 30) })
 }
+
+// c18Src: alive gossip over the packet path from allowed / disallowed source addresses with
+// allowed / disallowed inner addresses, on a node with an allow-list.
+func c18Src(r *rng, id string) {
+	rcv, err := newCnode(ccfg{name: "R", cidrs: []string{"10.0.0.0/8", "fd00::/8"}})
+	if err != nil {
+		emit("C18 src id=%s err=create", id)
+		return
+	}
+	defer rcv.m.Shutdown()
+	pool := newAddrPool()
+	src := []string{"10.0.0.1:7946", "192.168.0.9:7946", "[fd00::7]:7946", "[2001:db8::1]:7946", "10.200.1.1:1"}[r.intn(5)]
+	inner := []int{1, 2, 3, 4, 5, 6, 7, 8}[r.intn(8)]
+	carrier := []string{"plain", "compound", "compressed"}[r.intn(3)]
+	msg := ml.VerifEncodeAlive(uint32(1+r.intn(3)), "n1", pool.addrs[inner], 7946, nil, []uint8{1, 5, 2, 0, 0, 0})
+	switch carrier {
+	case "compound":
+		msg = ml.VerifMakeCompoundMessage([][]byte{msg})
+	case "compressed":
+		c, _ := ml.VerifCompressPayload(msg)
+		msg = c
+	}
+	ua, _ := net.ResolveUDPAddr("udp", src)
+	pan := 0
+	func() {
+		defer func() {
+			if rec := recover(); rec != nil {
+				pan = 1
+			}
+		}()
+		ml.VerifIngestPacket(rcv.m, msg, ua, time.Now())
+		rcv.quiesce()
+	}()
+	listed, recorded := 0, 0
+	for _, n := range rcv.m.Members() {
+		if n.Name == "n1" {
+			listed = 1
+		}
+	}
+	for _, n := range ml.VerifSnapshotState(rcv.m).Nodes {
+		if n.Name == "n1" {
+			recorded = 1
+		}
+	}
+	evs := rcv.ev.take()
+	srcOK := b2i(strings.HasPrefix(src, "10.") || strings.HasPrefix(src, "[fd00"))
+	emit("C18 src id=%s src=%d inner=%d carrier=%s listed=%d recorded=%d events=%d panic=%d", id, srcOK, inner, carrier, listed, recorded, len(evs), pan)
+}
+
+// c07Conc: concurrent claims about different members; the event delegate checks that no
+// callback starts while another one is still running.
+func c07Conc(r *rng, id string) {
+	cd := &concDel{}
+	conf := ml.DefaultLANConfig()
+	conf.Name = "S"
+	conf.Transport = newNullTransport()
+	conf.AdvertiseAddr = "10.0.0.9"
+	conf.AdvertisePort = 7946
+	conf.BindPort = 7946
+	conf.ProbeInterval = time.Hour
+	conf.GossipInterval = 0
+	conf.PushPullInterval = 0
+	conf.Events = cd
+	conf.Logger = log.New(io.Discard, "", 0)
+	m, err := ml.Create(conf)
+	if err != nil {
+		return
+	}
+	defer m.Shutdown()
+	var wg sync.WaitGroup
+	workers := 4
+	for w := 0; w < workers; w++ {
+		wg.Add(1)
+		go func(w int) {
+			defer wg.Done()
+			name := fmt.Sprintf("n%d", w)
+			for k := uint32(1); k < 40; k++ {
+				ml.VerifAliveNode(m, 2*k, name, []byte{10, 0, 0, byte(w + 1)}, 7946, []byte{byte(k)}, []uint8{1, 5, 2, 0, 0, 0}, nil, false)
+				ml.VerifSuspectNode(m, 2*k, name, "x")
+				ml.VerifDeadNode(m, 2*k, name, "y")
+			}
+		}(w)
+	}
+	wg.Wait()
+	emit("C07 conc id=%s callbacks=%d overlap=%d", id, cd.calls.Load(), cd.overlaps.Load())
+}
+
+type concDel struct {
+	inside   atomic.Int32
+	calls    atomic.Int64
+	overlaps atomic.Int64
+}
+
+func (d *concDel) enter() {
+	if d.inside.Add(1) != 1 {
+		d.overlaps.Add(1)
+	}
+	d.calls.Add(1)
+	for i := 0; i < 3; i++ {
+		runtime.Gosched()
+	}
+	time.Sleep(20 * time.Microsecond)
+	d.inside.Add(-1)
+}
+func (d *concDel) NotifyJoin(*ml.Node)   { d.enter() }
+func (d *concDel) NotifyLeave(*ml.Node)  { d.enter() }
+func (d *concDel) NotifyUpdate(*ml.Node) { d.enter() }
 
 // C18: allow-list always on, address classes spread over every carrier the step harness has.
 func TestC18(t *testing.T) {
@@ -47,15 +168,16 @@ func TestC18(t *testing.T) {
 		for j := 0; j < k; j++ {
 			o := randomOp(r, c, 1, &nt)
 			if o.kind == 'A' && r.chance(1, 2) {
-				o.addr = []int{3, 5, 6, 4, 7}[r.intn(5)]
+				o.addr = []int{3, 5, 6, 4, 7, 8}[r.intn(6)]
 			}
 			for e := range o.entries {
 				if r.chance(1, 2) && o.entries[e].name != "S" {
-					o.entries[e].addr = []int{3, 5, 6, 4, 7}[r.intn(5)]
+					o.entries[e].addr = []int{3, 5, 6, 4, 7, 8}[r.intn(6)]
 				}
 			}
 			ops = append(ops, o)
 		}
 		runHistory("C18", id, c, ops)
 	})
+	forCases(n/4, 1181, "s", func(i int, r *rng, id string) { c18Src(r, id) })
 }
